@@ -25,7 +25,7 @@ EXPLANATION = (
     "skip/stride/atom_indices/chunk dependence.")
 NOT_DECIDED = ["equality of the values read (run-time)", "the XDR offset arithmetic inside C", "efficient-striding seek path of xtc/trr beyond its structure"]
 ASSUMPTIONS = ["read_next_timestep / read_xtc / read_trr consume exactly one frame per successful call"]
-FLOORS = {"C02-R1": 30, "C02-R2": 10, "C02-R3": 3, "C02-R4": 6, "C02-R5": 15, "C02-R6": 8}
+FLOORS = {"C02-R1": 30, "C02-R2": 10, "C02-R3": 3, "C02-R4": 6, "C02-R5": 15, "C02-R6": 8, "C02-R7": 8}
 
 LOADERS = {  # ext -> class key
     ".xtc": "xtc", ".trr": "trr", ".dcd": "dcd", ".dtr": "dtr", ".h5": "h5", ".nc": "nc", ".mdcrd": "mdcrd", ".xyz": "xyz",
@@ -57,6 +57,8 @@ def check(ctx):
     ctx.rule("C02-R3", "after a strided read the cursor equals the end of the consumed window")
     ctx.rule("C02-R4", "synthesised time = initial + stride*arange(len(xyz)), `initial` = position before the read")
     ctx.rule("C02-R5", "topology.subset(atom_indices) is applied iff atom_indices is not None, and the subset topology is the one handed to Trajectory")
+    ctx.rule("C02-R7", "every array handed to read_xtc / read_trr as a per-frame buffer is allocated for as many atoms as the reader is told to write (the file's atoms, "
+                       "not the atoms selected): on every path on which the call can be reached")
     ctx.rule("C02-R6", "iterload: every branch applies skip, stride and atom_indices and yields chunks of `chunk`; load(list): every file gets the same kwargs, joined with check_topology=False")
     reg = F.registry(ctx)
 
@@ -123,6 +125,7 @@ def check(ctx):
     _r5(ctx)
     _r5_index_arrays(ctx)
     _r6(ctx)
+    _r7_reader_buffers(ctx)
 
 
 # ---------------------------------------------------------------------------------------------
@@ -559,3 +562,95 @@ def _r6(ctx):
     j = _calls(fn, lambda c: call_name(c) == "join")
     ok = bool(j) and const(kwarg(j[0], "check_topology")) is False and dotted(kwarg(j[0], "discard_overlapping_frames")) == "discard_overlapping_frames"
     ctx.decide(ok, "C02-R6", j[0] if j else fn, TRAJ, "load", "join(check_topology=False, discard_overlapping_frames=...)", "", "the per-file loads are not joined as documented")
+
+
+# ---------------------------------------------------------------------------------------------------
+READER_BUFFER_ARGS = {"read_xtc": (1, [5]), "read_trr": (1, [6, 7, 8])}     # callee: (position of natoms, positions of the rvec* buffers)
+
+
+def _r7_reader_buffers(ctx):
+    """The XDR readers write `natoms` positions (velocities, forces) into the buffer they are given.  A buffer allocated for the atoms the
+    caller *selected* and handed to a call that reads all atoms of the file is overrun (heap corruption) - e.g. the dummy frame used to skip
+    frames when striding.  For every call: the atom axis of every allocation that can reach the buffer argument on a path compatible with the
+    conditions around the call must be the natoms argument."""
+    for key in ("xtc", "trr"):
+        rel, cls = F.rel_cls(key)
+        mod = ctx.py.mod(rel)
+        for mname in ("_read", "read"):
+            fn = F.method(ctx, key, mname, required=False)
+            if fn is None:
+                continue
+            q = "%s.%s" % (cls, mname)
+            parents = {}
+            for n in ast.walk(fn):
+                for c in ast.iter_child_nodes(n):
+                    parents[c] = n
+
+            def guards(node):
+                g = []
+                cur = node
+                while cur in parents:
+                    p_ = parents[cur]
+                    if isinstance(p_, ast.If):
+                        if cur in p_.body:
+                            g.append((src(p_.test), True))
+                        elif cur in p_.orelse:
+                            g.append((src(p_.test), False))
+                    cur = p_
+                return g
+
+            def compatible(g1, g2):
+                return not any(t1 == t2 and p1 != p2 for t1, p1 in g1 for t2, p2 in g2)
+            assigns = {}
+            for n in walk_no_nested(fn):
+                if isinstance(n, ast.Assign) and len(n.targets) == 1 and isinstance(n.targets[0], ast.Name):
+                    assigns.setdefault(n.targets[0].id, []).append(n)
+            for call in [n for n in ast.walk(fn) if isinstance(n, ast.Call)]:
+                cn = (call_name(call) or "").split(".")[-1]
+                if cn not in READER_BUFFER_ARGS:
+                    continue
+                npos, bufpos = READER_BUFFER_ARGS[cn]
+                if len(call.args) <= npos:
+                    continue
+                natoms = src(call.args[npos]).replace(" ", "")
+                cg = guards(call)
+                for bp in bufpos:
+                    if bp >= len(call.args):
+                        continue
+                    a = call.args[bp]
+                    if isinstance(a, ast.Constant) or (isinstance(a, ast.Name) and a.id == "NULL"):
+                        continue
+                    # the buffer expression: BUF[i, 0, 0] / BUF[0, 0], or a local pointer that was set from one
+                    cands = []
+                    if isinstance(a, ast.Subscript) and isinstance(a.value, ast.Name):
+                        cands = [(a.value.id, a)]
+                    elif isinstance(a, ast.Name):
+                        for d in assigns.get(a.id, []):
+                            if compatible(cg, guards(d)) and isinstance(d.value, ast.Subscript) and isinstance(d.value.value, ast.Name):
+                                cands.append((d.value.value.id, d.value))
+                    for buf, sub in cands:
+                        n_idx = len(sub.slice.elts) if isinstance(sub.slice, ast.Tuple) else 1
+                        for d in assigns.get(buf, []):
+                            v = d.value
+                            if not (isinstance(v, ast.Call) and (call_name(v) or "").split(".")[-1] in ("empty", "zeros", "ones", "empty_like", "zeros_like")):
+                                continue
+                            if not compatible(cg, guards(d)):
+                                continue
+                            shp = v.args[0] if v.args else kwarg(v, "shape")
+                            if not isinstance(shp, (ast.Tuple, ast.List)) or len(shp.elts) < 2:
+                                continue
+                            atom_dim = shp.elts[-2]
+                            # resolve a local through the assignments compatible with the call
+                            vals = []
+                            if isinstance(atom_dim, ast.Name) and atom_dim.id in assigns:
+                                for dd in assigns[atom_dim.id]:
+                                    if compatible(cg, guards(dd)):
+                                        vals.append((src(dd.value).replace(" ", ""), guards(dd)))
+                            else:
+                                vals.append((src(atom_dim).replace(" ", ""), []))
+                            bad = [(t, g) for t, g in vals if t != natoms]
+                            desc = "%s(.., %s, ..) writes into `%s` (argument %d), allocated `%s`" % (cn, natoms, buf, bp, src(v)[:50])
+                            ctx.decide(not bad, "C02-R7", call, rel, q, desc, "atom axis = %s on every path that reaches the call" % natoms,
+                                       "the reader writes %s atoms into `%s`, which is allocated for `%s` atoms%s: with atom_indices given and this call reached (e.g. the frames skipped "
+                                       "by read(stride=s) before the offsets are known) memory behind the buffer is overwritten"
+                                       % (natoms, buf, bad[0][0] if bad else "", (" when " + " and ".join("%s is %s" % (t, p) for t, p in bad[0][1])) if bad and bad[0][1] else ""))
